@@ -31,7 +31,7 @@ def model_check(chk, cfgs, out):
     try:
         for cfg, workers, expect in cfgs:
             r = vlib.tlc(SPECDIR, "Tunnel", cfg, workers=workers, timeout=2400, keep_prints=False,
-                         coverage=(cfg == "MC_one.cfg" and chk.tier != "quick"))
+                         coverage=(cfg == "MC_one.cfg" and chk.tier != "quick"), heap=(None if cfg == "MC_big.cfg" else "4g"))
             out.append((cfg, r, expect))
     except Exception as e:
         out.append(("error", e, None))
@@ -47,7 +47,7 @@ def schedules(chk, q):
         futs = [ex.submit(corerig.simulate, chk, SPECDIR, "Tunnel_Gen", cfg, num, depth, chk.seed * 100 + i)
                 for i, (cfg, num, depth, _) in enumerate(plan)]
         fsmall = ex.submit(vlib.tlc, SPECDIR, "Tunnel_Gen", "Gen_small.cfg", workers=1, timeout=300,
-                           dump_dot="small.dot", keep_prints=False)
+                           dump_dot="small.dot", keep_prints=False, heap="2g")
         behs = [f.result() for f in futs]
         rsmall = fsmall.result()
     chk.add_tlc(rsmall)
